@@ -30,6 +30,15 @@ def parseOp : List String → Option Op
 def step (pool : List Msg) (ws : List String) : List Msg × String :=
   match ws with
   | ["case", id] => ([], s!"case {id}")
+  | ["dump"] => (pool, "ok " ++ dump pool)
+  | "q" :: rest =>
+    -- quiet op: applied, nothing materialised
+    match parseOp rest with
+    | none => (pool, "bad-op")
+    | some op =>
+      match Elvis.Msg.step pool op with
+      | .ok p => (p, "ok")
+      | .error e => (pool, s!"err {e}")
   | _ =>
     match parseOp ws with
     | none => (pool, "bad-op")
